@@ -35,7 +35,7 @@ def generate(rnd, tier):
 
 def monitor(case, obs):
     x = X(case, obs)
-    ready = {}; counts = {}; failed = {}; last_refresh = {}; refreshed = set()
+    ready = {}; counts = {}; failed = {}; last_refresh = {}; refreshed = set(); setup_top = {}
     in_replace = 0
     nesting = any(ev[0] == "api" and ev[1] in ("proc", "push_modal", "new_loop", "get_user_input", "close_loop", "close_direct", "replace", "push", "schedule") and i > len(case.get("init") or []) * 2
                   for i, ev, ctx in x.events()) or case.get("quit_screen") is not None
@@ -46,10 +46,12 @@ def monitor(case, obs):
             failed[ev[2]] = False           # a new occurrence of the screen on the stack: "discarded without ever being refreshed, drawn or prompted" is per occurrence
         if ev[0] == "api" and ev[1] == "replace": in_replace += 1
         if ev[0] == "api<" and ev[1] == "replace": in_replace = max(0, in_replace - 1)
+        if ev[0] == "cb<" and ev[2] == "setup" and len(ev) > 3 and not ev[3]: setup_top.pop(ev[1], None)      # a failed setup: that entry is discarded, not refreshed
         if ev[0] == "cb":
             scr, cb = ev[1], ev[2]
             name = x.specs[scr]["name"]
             if cb == "setup":
+                setup_top[scr] = ctx.get("top", "?")
                 if ready.get(scr): return "setup() of %s ran again after it had succeeded" % name
                 counts[scr] = counts.get(scr, 0) + 1
             else:
@@ -57,7 +59,9 @@ def monitor(case, obs):
                     if failed.get(scr) and not ready.get(scr): return "%s() of %s ran although its setup reported failure" % (cb, name)
                 if cb == "refresh":
                     if scr not in refreshed and counts.get(scr, 0) == 0: return "refresh() of %s ran before its setup()" % name
-                    refreshed.add(scr); last_refresh.setdefault(scr, []).append((i, ev[3], ctx.get("top", "?")))
+                    # the entry being processed is the one that was on top when its processing began: at its setup() if that ran in this activation (a setup()
+                    # that pushes leaves its own entry covered while it is refreshed - stated as it is in Props/C04, P8), else now
+                    refreshed.add(scr); last_refresh.setdefault(scr, []).append((i, ev[3], setup_top.pop(scr, ctx.get("top", "?"))))
                 if cb == "show":
                     # activations can nest (a refresh() that itself processes signals causes a complete nested refresh; show of the same screen before the
                     # outer activation draws): a show belongs to the latest refresh of that screen that has not been followed by its show yet
